@@ -60,13 +60,13 @@ func EncodeAddress(ops []byte, addr []byte, addrLen int, val int, add int) []byt
 		}
 		panic("address overflow:" + hex.EncodeToString(ops) + ", addr:" + hex.EncodeToString(addr[:addrLen]))
 	case 2:
-		if !isInt16Overflow((int32)(int8(val)) + (int32)(add)) {
+		if !isInt16Overflow((int32)(int16(val)) + (int32)(add)) {
 			LittleEndian.PutInt16(addr, int16(val)+int16(add))
 			return toInst(ops, addr)
 		}
 		if opsNew, ok := opExpand[uint32(ops[0])<<16+uint32(ops[1])]; ok {
 			addr = make([]byte, 4)
-			LittleEndian.PutInt32(addr, (int32)(int8(val))+int32(add)-
+			LittleEndian.PutInt32(addr, (int32)(int16(val))+int32(add)-
 				int32(len(addr)-addrLen)-int32(len(opsNew)-len(ops))) // 新增了4个字节,需要减去
 			ops = opsNew
 			return toInst(ops, addr)
